@@ -1,5 +1,7 @@
 import ModVerif.AuditCmd
 import ModVerif.Props.C03
 import ModVerif.Tie.Tlog
+import ModVerif.Tie.FnTlogProof
 #audit_module ModVerif.Props.C03
 #audit_module ModVerif.Tie.Tlog
+#audit_module ModVerif.Tie.FnTlogProof
